@@ -51,7 +51,8 @@ Prog(k) ==
                              ELSE << <<"r","I","cap">>, <<"u","I","">>, <<"q","S","">>, <<"w","S","pub">>, <<"u","S","">> >>)
                        ELSE << <<"q","S","">>, <<"w","S","">>, <<"r","I","cappub">>, <<"u","I","">>, <<"u","S","">> >>
       [] k = "rollback" -> IF TwoSections
-                           THEN << <<"q","S","">>, <<"w","S","take">>, <<"u","S","">>, <<"q","I","">>, <<"w","I","restore">>, <<"u","I","">> >>
+                           THEN << <<"q","S","">>, <<"w","S","take">>, <<"r","I","">>, <<"u","I","">>, <<"u","S","">>,
+                                   <<"q","I","">>, <<"w","I","restore">>, <<"u","I","">> >>   \* (the nested read checks the nostr id, lib.rs:804-826)
                            ELSE << <<"q","S","">>, <<"w","S","take">>, <<"q","I","">>, <<"w","I","restore">>, <<"u","I","">>, <<"u","S","">> >>
 
 Idle == [n |-> 0, pc |-> 0, prog |-> <<>>, op |-> [k |-> "", g |-> "", v |-> 0, n |-> ""], tmp |-> None, ret |-> None, inv |-> 0]
